@@ -124,6 +124,12 @@ def hostile_selectors(rng, model: sites.SiteModel, full: bool, n: int, outside_a
             out.append((rng.choice([b"/..", b"..", b"/.", b"/../", b"//", b"\\..\\..", b"/%00", b"/\x00/etc/passwd",
                                     b"/" + b"../" * 12 + b"etc/passwd", b"/....//....//etc/passwd", b"/.%00./",
                                     b"/%c0%ae%c0%ae/", b"/%252e%252e/"]), rng.random() < 0.5, "bare-climb"))
+    # every compatibility look-alike of '..' with every look-alike of '/', at the depths that would reach the outside
+    # targets if something normalised them (systematic: not left to the draw above)
+    for dd in ("\u2025", "\uff0e\uff0e", "\u2024\u2024", ".\uff0e", "\u2025\u2024"):
+        for sl in ("/", "\uff0f", "\u2215"):
+            for depth in (1, 2):
+                out.append((b"/" + (dd + sl).encode("utf-8") * depth + b"outside-secret.txt", False, "unicode-lookalike"))
     return out
 
 
